@@ -14,7 +14,7 @@ import re
 
 from .absgrammar import val
 
-MAXLEN = 400
+MAXLEN = int(__import__("os").environ.get("VERIF_TRACE_MAXLEN", "1500"))
 
 
 class Unsupported(Exception):
@@ -57,6 +57,8 @@ class Projector:
             return {'op': 'fail'}
         if T == 'EOF':
             return {'op': 'eof'}
+        if T == 'EOL':
+            return {'op': 'eol'}
         if T == 'Cut':
             return {'op': 'cut'}
         if T == 'EmptyClosure':
@@ -138,10 +140,75 @@ def skip_table(text, ws_re, eol_re, cmt_re):
     return out
 
 
+def eol_table(text, eol_re, cmt_re):
+    """$-> from each position (docs/syntax.rst): whitespace in the sense of str.isspace() other than the line separator, and
+    comments, are skipped; then a line break (os.linesep) or the end of the text must follow; -1 where it does not.  The skipping
+    of blanks and comments after the line break follows the code (input/textlines.py: matcheol), the documents do not mention it."""
+    n = len(text)
+
+    def eat(rx, p):
+        moved = False
+        while rx is not None:
+            m = rx.match(text, p)
+            if not m or m.end() == p:
+                break
+            p, moved = m.end(), True
+        return p, moved
+
+    def blanks(p):
+        while p < n and text[p].isspace() and text[p] != '\n':
+            p += 1
+        return p
+
+    def spaces(p):
+        while True:
+            q = p
+            p = blanks(p)
+            p, mv = eat(eol_re, p)
+            if mv:
+                p = blanks(p)
+            p, _ = eat(cmt_re, p)
+            if p == q:
+                return p
+    out = []
+    for p0 in range(n + 1):
+        p = spaces(p0)
+        if p >= n:
+            pass                      # end of text: a whitespace-only rest is a line end
+        else:
+            nl = text.find('\n', p)
+            end = nl if nl != -1 else n
+            if any(not c.isspace() for c in text[p:end]):
+                out.append(-1)
+                continue
+            p = nl + 1 if nl != -1 else n
+        out.append(spaces(p))
+    return out
+
+
 def _rx(x):
     if x is None or x == '':
         return None
     return x if isinstance(x, re.Pattern) else re.compile(str(x))
+
+
+class _PatRow(dict):
+    """Filled lazily by finish_tables() for the positions at which the engine tried some pattern."""
+
+    def __init__(self, pattern, text):
+        super().__init__()
+        self.rx, self.text = re.compile(pattern), text
+
+    def fill(self, positions):
+        for i in positions:
+            m = self.rx.match(self.text, i)
+            self[str(i)] = {'n': -1, 'v': {'t': 'n'}} if m is None else {'n': m.end() - i, 'v': val(pattern_value(m))}
+
+
+def finish_tables(head, positions):
+    """Tabulate every pattern at every position where the engine tried a pattern (positions come from the recorder)."""
+    for row in head['cfg']['pm']:
+        row.fill(sorted(set(positions)))
 
 
 _BOOT: dict = {}
@@ -164,7 +231,7 @@ def boot_rules():
     return _BOOT['rules']
 
 
-def project(ctx):
+def project(ctx, positions=None):
     """A live parse context (model interpreter, or the bootstrap parser) -> dict(g, cfg, inp) or raises Unsupported."""
     rulemap = getattr(ctx, '_rulemap', None)
     backend = 'model'
@@ -216,22 +283,11 @@ def project(ctx):
     namechars = str(cfg0.namechars or '')
     chars.update(namechars)
     chars = sorted(chars)
-    pm = []
-    for p in pj.pats:
-        rx = re.compile(p)
-        row = []
-        for i in range(len(text) + 1):
-            m = rx.match(text, i)
-            if m is None:
-                row.append({'n': -1, 'v': {'t': 'n'}})
-            else:
-                v = pattern_value(m)
-                row.append({'n': m.end() - i, 'v': val(v)})
-        pm.append(row)
+    pm = [_PatRow(p, text) for p in pj.pats]
     cfg = {
         'ws': [], 'eolc': [], 'cmto': [], 'cmtc': [],
         'skip': skip_table(text, inp.whitespace_re, _rx(cfg0.eol_comments), _rx(cfg0.comments)),
-        'pm': pm,
+        'pm': pm, 'eol': eol_table(text, _rx(cfg0.eol_comments), _rx(cfg0.comments)),
         'nameguard': bool(inp.nameguard), 'namechars': list(namechars), 'ignorecase': bool(cfg0.ignorecase),
         'alpha': [c for c in chars if c.isalpha()], 'alnum': [c for c in chars if c.isalnum()],
         'fold': [[c, c.lower()] for c in chars if c.lower() != c and len(c.lower()) == 1],
